@@ -151,7 +151,11 @@ func execute(pool *ops.Pool, p *Program) (hashes [][]string, overlapped bool) {
 			<-start
 			for _, op := range list {
 				t0 := time.Now()
-				got := ops.Hash(ops.Run(pool, op, nil))
+				raw := ops.Run(pool, op, nil)
+				got := ops.Hash(raw)
+				if v := ops.Verdict(raw); v != "" {
+					got = "VERDICT " + v // wrong whatever it returns when run alone
+				}
 				t1 := time.Now()
 				spans[gi] = append(spans[gi], opSpan{op.Kind, t0, t1})
 				hashes[gi] = append(hashes[gi], got)
@@ -493,7 +497,9 @@ func TestMain(m *testing.M) {
 				want = ops.Hash(ops.Run(pool, op, nil))
 				base[op.String()] = want
 			}
-			if hashes[gi][oi] != want {
+			if strings.HasPrefix(hashes[gi][oi], "VERDICT ") {
+				r.Mismatch = append(r.Mismatch, fmt.Sprintf("goroutine %d: %v: %s", gi, op, strings.ToLower(hashes[gi][oi][8:])))
+			} else if hashes[gi][oi] != want {
 				r.Mismatch = append(r.Mismatch, fmt.Sprintf("goroutine %d: %v returned a different result than when run alone", gi, op))
 			}
 		}
@@ -732,6 +738,39 @@ func TestC09(t *testing.T) {
 			if sig, msg, ok := runProgram(p, "focused"); !ok {
 				rec.Fail("focused-"+p.Campaign, sig, "all goroutines on the input family '"+famOrder[i][:len(famOrder[i])-2]+"': "+msg, p)
 				break
+			}
+		}
+
+		// every kind: each of 8 goroutines makes every kind of call once (in
+		// a rotated order, on inputs without accumulating sources), so that
+		// every kind of call runs on several goroutines in every run
+		{
+			var plain []int
+			for i := range pool.Bytes {
+				if !isAccum[i] {
+					plain = append(plain, i)
+				}
+			}
+			if len(plain) > 0 {
+				p := &Program{PoolSeed: seed, Campaign: "A", GoMaxProcs: 8}
+				for g := 0; g < 8; g++ {
+					var list []ops.Op
+					for j := range ops.OpKinds {
+						kind := ops.OpKinds[(j+g)%len(ops.OpKinds)]
+						op := ops.Op{Kind: kind, Idx: plain[(g*7+j)%len(plain)]}
+						if strings.HasPrefix(kind, "encode") {
+							op.Idx = (g + j) % len(pool.Specs)
+							op.BE = (g+j)%2 == 1
+						}
+						list = append(list, op)
+					}
+					p.Routines = append(p.Routines, list)
+				}
+				rec.Eval("every-kind", 1)
+				rec.NonTrivial(hx.FP("every-kind"))
+				if sig, msg, ok := runProgram(p, "every-kind"); !ok {
+					rec.Fail("every-kind", sig, "every kind of call on each of 8 goroutines: "+msg, p)
+				}
 			}
 		}
 
